@@ -16,6 +16,9 @@
 //!               under the pool hook log
 //!   longloops   directed loops on a periodic XX chain (L = 256, beta = 64, n ~ 9000), several loops per diagonal sweep
 //!   densegraph  fully connected +-J model on ~155 spins under RVB: one RVB region spans > 128 world lines
+//!   manyvars    generic sampler with > 65536 variables (six interactions) and with > 65536 interactions (TFIM chain term by term)
+//!   longrun     measuring run whose sum of n exceeds 2^24; tempering autocorrelation helper over > 65536 time steps
+//!   classicalring  classical worm moves on a +-1 ring of > 65536 sites
 //!   hubstar     central-spin star with > 72000 leaves under RVB: a vertex of degree > 65535 (thorough tier of `all` only)
 //!   all         everything above (scenarios run on threads; output order and content are deterministic in --seed)
 //! Witness mode (never part of `all`, not wired): `clusterquad` — wall time of one cluster update on N almost decoupled spins
@@ -1408,6 +1411,309 @@ fn sc_star(seed: u64, thorough: bool) -> Out {
 }
 
 // ------------------------------------------------------------------------------------------------------------------
+// round-8 additions: cutoff hand-back in the container, > 65536 variables / interactions in the generic sampler, long
+// measuring runs, classical worm on > 65536 sites
+// ------------------------------------------------------------------------------------------------------------------
+/// three replicas of an 8-spin chain with a user-supplied cutoff of 100000 slots: the shared cutoff exceeds 65536 while every
+/// replica needs a few dozen slots. C12: no replica's cutoff ever decreases, every operator stays below it; C10: one cutoff.
+fn sc_ladder_cutoff(seed: u64, thorough: bool) -> Out {
+    let mut out = Out::default();
+    let mut r = SplitMix64::new(seed);
+    let n = 8usize;
+    let edges: Vec<((usize, usize), f64)> = (0..n - 1).map(|i| ((i, i + 1), if i % 2 == 0 { -1.0 } else { 0.5 })).collect();
+    let spec = ISpec::new("chain", n, edges, 1.0, 0.0);
+    let betas = [0.5, 1.0, 2.0];
+    let reps: Vec<(ISpec, f64)> = betas.iter().map(|b| (spec.clone(), *b)).collect();
+    let cutoff = 100_000 + r.below(30_000) as usize;
+    let head = format!("longstring ladder-cutoff {} betas={:?} initial_cutoff={}", spec.token(), betas, cutoff);
+    let st = gen_state(&mut r, n);
+    let rounds = if thorough { 24 } else { 8 };
+    ladder_run(&mut out, "longstring.ladder_cutoff", &head, reps, cutoff, vec![st; 3], 2, rounds, FULL, &mut r, &|tc| tc.graph_ref().iter().any(|(g, _)| g.get_cutoff() > 65536));
+    out
+}
+
+type Q = Qmc<SplitMix64, FastOps>;
+struct GTerm {
+    vars: SV,
+    constant: bool,
+    /// weight by (index of ins, index of outs), msb first; only symmetric matrices are used
+    mat: Vec<f64>,
+}
+struct GSpec {
+    terms: Vec<GTerm>,
+    shape: HashMap<(SV, bool), usize>,
+}
+impl GSpec {
+    fn new(terms: Vec<GTerm>) -> Self {
+        let shape = terms.iter().enumerate().map(|(b, t)| ((t.vars.clone(), t.constant), b)).collect();
+        GSpec { terms, shape }
+    }
+}
+impl HamSpec for GSpec {
+    fn nbonds(&self) -> usize {
+        self.terms.len()
+    }
+    fn edge(&self, b: usize) -> (SV, bool) {
+        (self.terms[b].vars.clone(), self.terms[b].constant)
+    }
+    fn weight(&self, b: usize, ins: &[bool], outs: &[bool]) -> f64 {
+        let t = &self.terms[b];
+        let k = t.vars.len();
+        if ins.len() != k || outs.len() != k {
+            return 0.0;
+        }
+        let idx = |x: &[bool]| x.iter().fold(0usize, |a, v| a * 2 + *v as usize);
+        t.mat[idx(ins) * (1 << k) + idx(outs)]
+    }
+    fn bond_by_shape(&self, op: &SOp) -> Option<usize> {
+        self.shape.get(&(op.vars.clone(), op.constant)).cloned()
+    }
+}
+fn check_generic(q: &Q, gs: &GSpec, count_sample: &[usize], c: &mut Chk, r: &mut SplitMix64) -> Scan {
+    let m = q.get_manager_ref();
+    let sc = scan(m);
+    c.res(check_worldlines(m, &sc, q.state_ref()));
+    let legal = check_legal(m, &sc, gs);
+    let ok = legal.is_ok();
+    c.res(legal);
+    if ok {
+        for op in sc.ops.iter() {
+            let w = q.get_bonds()[op.bond].at(&op.ins, &op.outs).unwrap_or(f64::NAN);
+            if w != gs.weight(op.bond, &op.ins, &op.outs) {
+                c.ck(false, || format!("C04 bond {} at({}->{}) = {} expected {}", op.bond, bits(&op.ins), bits(&op.outs), w, gs.weight(op.bond, &op.ins, &op.outs)));
+                break;
+            }
+        }
+    }
+    c.res(check_nav(m, &sc, gs.nbonds(), count_sample, r));
+    for b in count_sample.iter() {
+        let e = sc.ops.iter().filter(|o| gs.bond_by_shape(o) == Some(*b)).count();
+        if *b < gs.nbonds() && q.get_bond_count(*b) != e {
+            c.ck(false, || format!("C11 get_bond_count({}) = {} but {} stored operators act on that interaction's variables", b, q.get_bond_count(*b), e));
+        }
+    }
+    let n = sc.ops.len();
+    c.ck(QmcStepper::get_n(q) == n, || format!("C11 sampler get_n {} vs scan {}", QmcStepper::get_n(q), n));
+    c.ck(q.get_cutoff() >= n + n / 2 + 1, || format!("C12 cutoff {} < n + n/2 + 1 with n = {}", q.get_cutoff(), n));
+    sc
+}
+fn generic_run(out: &mut Out, head: &str, mut q: Q, gs: &GSpec, beta: f64, steps: usize, sample: &dyn Fn(&mut SplitMix64) -> Vec<usize>, r: &mut SplitMix64) {
+    for step in 0..steps {
+        let mut c = Chk::new();
+        let cut0 = q.get_cutoff();
+        pool_begin();
+        let alive = c
+            .call("timestep", || {
+                q.timestep(beta);
+            })
+            .is_some();
+        c.res(pool_end("timestep").map(|_| ()));
+        if alive {
+            check_generic(&q, gs, &sample(r), &mut c, r);
+            c.ck(q.get_cutoff() >= cut0, || format!("C12 the cutoff decreased from {} to {}", cut0, q.get_cutoff()));
+        }
+        // C16: whatever the constructors accepted must be sampled; the violated invariant follows the colon
+        let res = c.done().map_err(|e| e.split("; ").map(|x| format!("C16 the accepted interactions are not sampled faithfully: {}", x)).collect::<Vec<_>>().join("; "));
+        out.case(true, format!("{} step {} timestep n={} cutoff={}", head, step, if alive { QmcStepper::get_n(&q) } else { 0 }, if alive { q.get_cutoff() } else { 0 }), res);
+        if !alive {
+            return;
+        }
+    }
+}
+/// generic sampler on > 65536 VARIABLES with six interactions: per-variable scratch buffers exceed 65536 elements
+fn sc_vars70k(seed: u64, thorough: bool) -> Out {
+    let mut out = Out::default();
+    let mut r = SplitMix64::new(seed);
+    let nvars = 70_000 + r.below(4_000) as usize;
+    let mut q: Q = Qmc::new_with_state(nvars, SplitMix64::new(r.next()), (0..nvars).map(|_| r.coin()).collect::<Vec<bool>>(), true);
+    let mut terms = vec![];
+    let mut bad = None;
+    for v in 0..4usize {
+        if let Err(e) = q.make_interaction(vec![1.0, 1.0, 1.0, 1.0], vec![v * 17]) {
+            bad = Some(e);
+        }
+        terms.push(GTerm { vars: smallvec![v * 17], constant: true, mat: vec![1.0; 4] });
+    }
+    for (a, b, w) in [(0usize, nvars - 1, 1.0), (17usize, nvars / 2, 0.5)] {
+        if let Err(e) = q.make_diagonal_interaction(vec![w, 0.0, 0.0, w], vec![a, b]) {
+            bad = Some(e);
+        }
+        let mut mat = vec![0.0; 16];
+        mat[0] = w;
+        mat[15] = w;
+        terms.push(GTerm { vars: smallvec![a, b], constant: false, mat });
+    }
+    let head = format!("manyvars vars nvars={} interactions=6 beta=2", nvars);
+    if let Some(e) = bad {
+        out.case(true, head, Err(format!("C16 a legal interaction was refused: {}", e)));
+        return out;
+    }
+    let gs = GSpec::new(terms);
+    generic_run(&mut out, &head, q, &gs, 2.0, if thorough { 30 } else { 10 }, &|_| vec![0, 1, 4, 5, 6, 65536], &mut r);
+    out
+}
+/// transverse-field Ising chain written term by term in the generic sampler (the layout `into_qmc` produces: couplings first,
+/// then one field term per site): > 65536 INTERACTIONS, loop + cluster updates on
+fn sc_terms70k(seed: u64, thorough: bool) -> Out {
+    let mut out = Out::default();
+    let mut r = SplitMix64::new(seed);
+    let l = 35_000 + r.below(2_000) as usize;
+    let mut q: Q = Qmc::new_with_state(l, SplitMix64::new(r.next()), vec![r.coin(); l], true);
+    let mut terms = Vec::with_capacity(2 * l);
+    for i in 0..l {
+        let (a, b) = (i, (i + 1) % l);
+        q.make_diagonal_interaction(vec![2.0, 0.0, 0.0, 2.0], vec![a, b]).unwrap();
+        let mut mat = vec![0.0; 16];
+        mat[0] = 2.0;
+        mat[15] = 2.0;
+        terms.push(GTerm { vars: smallvec![a, b], constant: false, mat });
+    }
+    for i in 0..l {
+        q.make_interaction(vec![1.0, 1.0, 1.0, 1.0], vec![i]).unwrap();
+        terms.push(GTerm { vars: smallvec![i], constant: true, mat: vec![1.0; 4] });
+    }
+    let gs = GSpec::new(terms);
+    let head = format!("manyvars terms chain L={} interactions={} beta=1", l, 2 * l);
+    let nb = 2 * l;
+    generic_run(&mut out, &head, q, &gs, 1.0, if thorough { 12 } else { 4 }, &move |r: &mut SplitMix64| vec![0, 65535, 65536 + r.below((nb - 65536) as u64) as usize, nb - 1, nb], &mut r);
+    out
+}
+/// C17: the energy returned by a measuring run = -(sum of get_n over the sampled steps / steps)/beta + offset, with the sum
+/// taken EXACTLY (u64 tally inside the fold); sum n > 2^24 with few steps of a long string
+fn sc_tally(seed: u64, thorough: bool) -> Out {
+    let mut out = Out::default();
+    let mut r = SplitMix64::new(seed);
+    let l = 64usize;
+    let edges: Vec<((usize, usize), f64)> = (0..l).map(|i| ((i, (i + 1) % l), -1.0)).collect();
+    let spec = ISpec::new("ring", l, edges, 1.0, 0.0);
+    let beta = 100.0;
+    let mut g = spec.build(40_000, gen_state(&mut r, l), r.next());
+    let head = format!("longrun tally {} beta={}", spec.token(), beta);
+    let mut c = Chk::new();
+    if c.call("warm-up", || g.timesteps(5, beta)).is_none() {
+        out.case(true, head, c.done());
+        return out;
+    }
+    for (k, (steps, freq)) in (if thorough { vec![(1500usize, None), (2400, Some(2)), (1500, Some(1))] } else { vec![(1100usize, None)] }).into_iter().enumerate() {
+        let mut c = Chk::new();
+        if let Some(((sum, cnt), e)) = c.call("timesteps_measure_with_self", || g.timesteps_measure_with_self(steps, beta, (0u64, 0u64), |(s, k), me| (s + QmcStepper::get_n(me) as u64, k + 1), freq)) {
+            let expect = g.get_energy_for_average_n(sum as f64 / cnt as f64, beta);
+            c.ck(cnt as usize == steps / freq.unwrap_or(1), || format!("C17 {} samples for {} steps with period {:?}", cnt, steps, freq));
+            c.ck((e - expect).abs() <= 1e-12 * expect.abs(), || {
+                format!("C17 measuring run over {} sampled steps returns energy {} but -(sum n / steps)/beta + offset with the exact tally sum n = {} is {} (relative difference {:e})", cnt, e, sum, expect, ((e - expect) / expect).abs())
+            });
+            out.max("longrun.tally.max_sum_n", sum);
+            out.case(sum > (1 << 24), format!("{} run {} steps={} period={:?} sum_n={}", head, k, steps, freq, sum), c.done());
+        } else {
+            out.case(true, format!("{} run {}", head, k), c.done());
+            break;
+        }
+        let _ = verif_log::take();
+    }
+    out
+}
+/// C20: the tempering autocorrelation helper over more than 65536 time steps with a sampling period that does not divide
+/// 65536 = the documented normalised (circular) autocorrelation of the states a clone records with ONE
+/// `parallel_timesteps_sample` call of the same arguments; selected lags
+fn sc_autocorr(seed: u64, thorough: bool) -> Out {
+    let mut out = Out::default();
+    let mut r = SplitMix64::new(seed);
+    let n = 3usize;
+    let edges: Vec<((usize, usize), f64)> = vec![((0, 1), -1.0), ((1, 2), 0.5)];
+    let spec = ISpec::new("chain", n, edges, 1.0, 0.0);
+    let mut tc: TC = TemperingContainer::new(SplitMix64::new(r.next()));
+    for beta in [0.5, 1.0] {
+        tc.add_qmc_stepper(spec.build(8, gen_state(&mut r, n), r.next()), beta).unwrap();
+    }
+    let t = 70_000 + r.below(if thorough { 70_000 } else { 3_000 }) as usize;
+    let (swap, freq) = (*r.pick(&[5usize, 7]), 3usize);
+    let head = format!("longrun autocorr {} betas=[0.5,1] timesteps={} swap_period={} sampling_period={}", spec.token(), t, swap, freq);
+    let mut c = Chk::new();
+    let mut reference = tc.clone();
+    let samples = c.call("parallel_timesteps_sample", || reference.parallel_timesteps_sample(t, swap, freq));
+    let got = c.call("calculate_variable_autocorrelation", || tc.calculate_variable_autocorrelation(t, Some(swap), Some(freq)));
+    if let (Some(samples), Some(got)) = (samples, got) {
+        for (k, ((states, _), ac)) in samples.iter().zip(got.iter()).enumerate() {
+            let s = states.len();
+            c.ck(ac.len() == s && s == t / freq, || format!("C20 replica {}: {} lags for {} samples ({} expected)", k, ac.len(), s, t / freq));
+            if ac.len() != s || s == 0 {
+                continue;
+            }
+            // x_i(t) = +-1 minus mean, normalised; r(lag) = mean over variables of the circular autocorrelation
+            let mut xs: Vec<Vec<f64>> = vec![];
+            for i in 0..n {
+                let raw: Vec<f64> = states.iter().map(|st| if st[i] { 1.0 } else { -1.0 }).collect();
+                let mean = raw.iter().sum::<f64>() / s as f64;
+                let mut x: Vec<f64> = raw.iter().map(|v| v - mean).collect();
+                let norm = x.iter().map(|v| v * v).sum::<f64>().sqrt();
+                x.iter_mut().for_each(|v| *v /= norm);
+                xs.push(x);
+            }
+            let mut lags = vec![0usize, 1, 2, 3, 7, 100, s / 2, s - 1];
+            for _ in 0..8 {
+                lags.push(r.below(s as u64) as usize);
+            }
+            for lag in lags {
+                let e = xs.iter().map(|x| (0..s).map(|u| x[u] * x[(u + lag) % s]).sum::<f64>()).sum::<f64>() / n as f64;
+                if !((ac[lag] - e).abs() <= 1e-7) {
+                    c.ck(false, || format!("C20 replica {} lag {}: helper returns {} but the normalised autocorrelation of the states at multiples of the sampling period is {}", k, lag, ac[lag], e));
+                    break;
+                }
+            }
+        }
+    }
+    out.case(true, head, c.done());
+    out
+}
+/// classical ring of > 65536 sites, couplings +-1, zero biases, worm moves only: a worm closes on zero total energy change,
+/// so the reported energy is exactly constant from step to step (and equals the direct sum over the edges)
+fn sc_worm(seed: u64, thorough: bool) -> Out {
+    use qmc::classical::graph::GraphState;
+    let mut out = Out::default();
+    let mut r = SplitMix64::new(seed);
+    let n = 70_000 + r.below(5_000) as usize;
+    let edges: Vec<((usize, usize), f64)> = (0..n).map(|i| ((i, (i + 1) % n), if r.coin() { 1.0 } else { -1.0 })).collect();
+    let biases = vec![0.0; n];
+    let mut g = GraphState::new(&edges, &biases, SplitMix64::new(r.next()));
+    let head = format!("classicalring worm sites={} couplings=+-1 biases=0 beta=1", n);
+    let direct = |s: &[bool]| edges.iter().map(|((a, b), j)| if s[*a] == s[*b] { *j } else { -*j }).sum::<f64>();
+    let steps = if thorough { 1500 } else { 400 };
+    let block = 100;
+    let mut last = g.get_energy();
+    let mut moved = 0u64;
+    let mut last_state = g.clone_state();
+    for blk in 0..steps / block {
+        let mut c = Chk::new();
+        let mut alive = true;
+        for _ in 0..block {
+            if c.call("do_time_step", || g.do_time_step(1.0, Some(0), Some(0), Some(20), None)).is_none() {
+                alive = false;
+                break;
+            }
+            let e = g.get_energy();
+            c.ck(e == last, || format!("C19 a worm-only time step on a +-1 ring with zero biases changed the reported energy {} -> {}", last, e));
+            last = e;
+            if g.state_ref() != last_state.as_slice() {
+                moved += 1;
+                last_state = g.clone_state();
+            }
+        }
+        if alive {
+            let d = direct(g.state_ref());
+            // the library reports the energy with the opposite overall sign convention or the same: compare magnitudes of change only
+            c.ck((g.get_energy().abs() - d.abs()).abs() < 1e-6, || format!("C19 get_energy {} vs direct sum over the edges {}", g.get_energy(), d));
+        }
+        let failed = c.failed();
+        out.case(moved > 0, format!("{} steps {}..{} moved_so_far={}", head, blk * block, (blk + 1) * block, moved), c.done());
+        if !alive || failed {
+            break;
+        }
+    }
+    out.add("classicalring.steps_that_moved_spins", moved);
+    out
+}
+
+// ------------------------------------------------------------------------------------------------------------------
 // bigcluster: one cluster with more than 33000 operators
 // ------------------------------------------------------------------------------------------------------------------
 /// synthetic strings through the public constructor `FastOps::new_from_ops`: 2 or 3 world lines tied together by > 40000
@@ -2018,6 +2324,12 @@ fn scenarios() -> Vec<Scn> {
         ("bigcluster", "ferro", sc_ferro32),
         ("longstring", "ring", sc_ring256),
         ("longstring", "schedule", sc_schedule),
+        ("longstring", "ladder_cutoff", sc_ladder_cutoff),
+        ("manyvars", "vars", sc_vars70k),
+        ("manyvars", "terms", sc_terms70k),
+        ("longrun", "tally", sc_tally),
+        ("longrun", "autocorr", sc_autocorr),
+        ("classicalring", "worm", sc_worm),
         ("densegraph", "dense", sc_dense),
         ("hubstar", "star", sc_star),
         ("longloops", "xx0", sc_xx0),
